@@ -67,6 +67,9 @@ class H(W.Hooks):
                             "count_after": run.d.schedule.num_scheduled_operations,
                             "is_complete": run.d.schedule.is_complete()})
 
+    def fork_diverged(self, run, detail):
+        self.ctx.violation("c01_copied_dispatcher_not_independent", detail)
+
     def end(self, run):
         ctx = self.ctx
         ctx.count("end_of_history_checks")
